@@ -258,6 +258,29 @@ Theorem C06_optimize_sem_partial_simple : forall infer nodes o p tape vals,
                                 nth_error vals (Z.to_nat x) = Some v /\ nth_error vals' (Z.to_nat j) = Some v.
 Proof. exact optimize_sem_simple_output. Qed.
 
+(* annotations (Send, Private, ...): the image of every node in the domain of the pipeline's map
+   carries all annotations of the node (annots_incl), for the same class of graphs.  In the meta
+   pass the annotations of a resolved getter are appended to the element it resolves to. *)
+Theorem C06_optimize_annots_partial : forall infer nodes o p tape vals,
+  infer_const infer -> typed_nodes infer nodes ->
+  const_typed nodes -> few_deps nodes -> simple_ops nodes -> meta_typed nodes ->
+  optimize_graph nodes o = Ok p ->
+  eval_graph_nodes nodes tape = Ok vals ->
+  forall i j, nth_error (po_map p) i = Some (Some j) ->
+    exists nd nd', nth_error nodes i = Some nd /\ 0 <= j /\ nth_error (po_nodes p) (Z.to_nat j) = Some nd' /\
+                   incl (n_annots nd) (n_annots nd').
+Proof. exact optimize_annots. Qed.
+Theorem C06_meta_annots_partial : forall nodes o p tape vals,
+  meta_hyps nodes -> opt_meta nodes o = Ok p -> eval_graph_nodes nodes tape = Ok vals ->
+  forall i j, nth_error (po_map p) i = Some (Some j) ->
+    exists nd nd', nth_error nodes i = Some nd /\ 0 <= j /\ nth_error (po_nodes p) (Z.to_nat j) = Some nd' /\
+                   incl (n_annots nd) (n_annots nd').
+Proof. exact meta_annots. Qed.
+(* full statement: the same for every typed graph, not only those without A2V/Zip/A2B/B2A *)
+Definition C06_optimize_annots_full : Prop := forall infer nodes o p,
+  typed_nodes infer nodes -> const_typed nodes -> optimize_graph nodes o = Ok p ->
+  annots_incl nodes (po_nodes p) (po_map p).
+
 (* the constant pass preserves these hypotheses (so they need only be assumed of the input) *)
 Theorem C06_const_preserves_hyps : forall infer nodes o p,
   const_typed nodes -> opt_const nodes o = Ok p ->
@@ -419,3 +442,5 @@ Print Assumptions C06_optimize_sem_partial.
 Print Assumptions C06_optimize_sem_transport_partial.
 Print Assumptions C06_optimize_sem_partial_simple.
 Print Assumptions C06_const_preserves_hyps.
+Print Assumptions C06_optimize_annots_partial.
+Print Assumptions C06_meta_annots_partial.
